@@ -89,6 +89,9 @@ ListItemsOp == UNCHANGED <<keys, vals>> /\ res' = ItemsRes(ListItems)
 AllItemsOp == UNCHANGED <<keys, vals>> /\ res' = ItemsRes(AllItems)
 \* copy(): an equal, independent modict holding every value of every key
 Copy == UNCHANGED <<keys, vals>> /\ res' = ItemsRes(ListItems)
+\* pickle round trip (protocol p) and copy.copy / copy.deepcopy: like copy(), "modict keeps every value per key"
+Pickle(p) == UNCHANGED <<keys, vals>> /\ res' = ItemsRes(ListItems)
+CopyModule(deep) == UNCHANGED <<keys, vals>> /\ res' = ItemsRes(ListItems)
 Clear == keys' = <<>> /\ vals' = <<>> /\ res' = None
 
 Next ==
@@ -98,6 +101,8 @@ Next ==
     \/ \E k \in Keys : Get(k) \/ GetList(k) \/ Contains(k) \/ Del(k) \/ Pop(k) \/ PopList(k)
     \/ \E b \in BOOLEAN : PopItem(b) \/ PopListItem(b)
     \/ ItemsOp \/ ListItemsOp \/ AllItemsOp \/ Copy \/ Clear
+    \/ \E p \in {0, 2, 5} : Pickle(p)
+    \/ \E deep \in BOOLEAN : CopyModule(deep)
 
 Spec == Init /\ [][Next]_vars
 Bound == Len(keys) <= MaxLen /\ \A k \in DOMAIN vals : Len(vals[k]) <= MaxVals
